@@ -15,7 +15,7 @@ LEVEL_TEXT = ('partial proof over a heuristic scan. PROVED: the composition of p
               'source by an effect-site scan: for every history a caller-owned cell changes only under a call documented as '
               'in-place on that argument (induction over the history + decidable check of the generated table against the '
               'documented in-place list); the frame is slot- and attribute-specific (an in-place fit may write only what the plane holds through opd/tilt: '
-              'inplace_fit_never_writes_amplitude, inplace_writes_go_through_documented_attributes); plane-state confluence holds at model level (composed with C04); seeded functions never touch the global generator; the _dft2_coords cache always holds '
+              'inplace_fit_never_writes_amplitude, inplace_writes_go_through_documented_attributes); the inplace= gate of the heap model is REGENERATED (Gen/InplaceGate.lean: every function with an inplace parameter, its gate statement, its write sites classified by the name they go through) and proved to be the hand list of the model, to work on self.copy() when the flag is off and to have no write site that bypasses the gate variable (inplace_gate_follows_source); plane-state confluence holds at model level (composed with C04); seeded functions never touch the global generator; the _dft2_coords cache always holds '
               'arange(n)-floor(n/2) because nothing writes it, so results are history independent and a repeated call sees the same coordinates (repeated_call_sees_same_coordinates); the seed reaches every generator (seed_reaches_every_generator). SAMPLED, not proved: that each '
               'summary (a row of the scan) is right about what NumPy/Python actually do — random histories on frozen, byte-snapshotted '
               'caller arrays and objects, op labels resolved through the receiver class MRO to the function that Python will run (not traced); the scan\'s alias rule is a heuristic.')
@@ -24,7 +24,7 @@ LEVEL_NOTE = ('PARTIAL PROOF (category proof because Lean theorems carry the com
               'in-place list; that each summary is faithful is sampled by the correspondence; the scan\'s alias rule is a trusted '
               'heuristic. Plane-state confluence: theorem at model level (C04 composition), sampled on the real code.')
 TECHNIQUE = 'Lean 4 proof (induction over histories, decide +kernel on a regenerated effect table) + history-based differential correspondence'
-GEN = ['Effects', 'Extent', 'FftScratch', 'FieldDispatch', 'FieldIdx', 'FieldMerge', 'FourierWiring', 'Helper', 'Helper20', 'Hex', 'Mesh', 'PlanePhase', 'PlaneType', 'PropagateMeta', 'TiltFit', 'Util', 'Window']     # every Gen module the model, lemmas, theorems and driver ops import (transitively)
+GEN = ['Effects', 'Extent', 'FftScratch', 'FieldDispatch', 'FieldIdx', 'FieldMerge', 'FourierWiring', 'Helper', 'Helper20', 'Hex', 'InplaceGate', 'Mesh', 'PlanePhase', 'PlaneType', 'PropagateMeta', 'TiltFit', 'Util', 'Window']     # every Gen module the model, lemmas, theorems and driver ops import (transitively)
 OPS = ['C10']
 RULE = ('four seeded-repeat cases per run (seeds 0, 3, one < 2**31, one >= 2**32): shot_noise (both methods), read_noise, dark_current and rule07_dark_current with fpn_factor > 0 and power_spectrum are each called three times with identical arguments, with unrelated global-generator activity in between, and must agree bit for bit; one table-driven smoke case per run: every public function of the effect table is called once on fixtures chosen by parameter name (those the fixtures do not fit are listed by name in UNPROVEN on every run) and the changed argument slots / global generator are compared with its table row; cases: random histories (length 5..40) of public calls — plane/pupil construction from shared arrays, attribute updates, '
         'fit_tilt (copy and in-place), copy, rescale, multiply, propagate_dft/fft (with scratch), Wavefront.insert/intensity, dft2/idft2 '
@@ -33,7 +33,8 @@ RULE = ('four seeded-repeat cases per run (seeds 0, 3, one < 2**31, one >= 2**32
         'editing — on a pool of caller arrays that are snapshotted byte-for-byte and read-only unless a documented in-place target; '
         'earlier pure calls are re-executed later and compared bit-for-bit; plus plane-state confluence cases (two fit_tilt/update orders); '
         'distinct = (history seed, length); non-trivial = the history contains an in-place op, a repeated call and a shared array')
-TRUSTED = ['the alias rule of the effect-site scan (tools/specs/c10.py docstring): which expressions are views and which are fresh',
+TRUSTED = ['the inplace= gate scan recognises write sites syntactically (attribute/subscript assignment, augmented assignment, del, mutating method calls, out= keywords) on the gate variable or the parameter; a write through a further alias of either is left to the effect-site scan and the histories',
+           'the alias rule of the effect-site scan (tools/specs/c10.py docstring): which expressions are views and which are fresh',
            'byte-level snapshots + read-only flags observe every write NumPy performs on the tracked arrays; object cells are digested '
            'recursively over vars(obj) (every attribute, nested lentil objects, lists, dicts)',
            'np.random.get_state() captures the whole state of the global generator']
